@@ -181,6 +181,17 @@ Section Proofs.
     - apply inv_call_service; auto; [right; repeat split; auto; lia|lia].
   Qed.
 
+  Lemma inv_pop_dispatch n s d j rest :
+    scan sc0 (d_out d) = Some s -> StronglySorted lt (d_started d) -> heads_started d ->
+    d_wbuf d + d_flushed d = lenN (units_bytes (d_out d)) -> (sc_lo s <= n)%nat ->
+    cur_ok s -> (sc_lo s <= j < n)%nat ->
+    msgs_ok (S j) n rest -> below (sc_lo s) (d_started d) ->
+    InvS n s (pop_dispatch reqs hs d rest j).
+  Proof.
+    intros. unfold pop_dispatch. apply inv_dispatch; unfold set_codec, set_msgs;
+      cbn [d_out d_st d_msgs d_started d_wbuf d_flushed]; auto.
+  Qed.
+
   Lemma dispatch_not_none d j : d_st (dispatch d j) <> SNone.
   Proof. unfold RespSeq.dispatch. destruct (req_expects _); cbn; discriminate. Qed.
   Lemma dispatch_fail d j : d_fail (dispatch d j) = d_fail d.
@@ -263,7 +274,7 @@ Section Proofs.
     - (* dispatch the next queued request *)
       destruct HI as [s (Hsc & Hst & Hso & Hh & Hw & Hlon)]. exists s.
       unfold st_ok in Hst. rewrite Est, Em in Hst. destruct Hst as (Hc & (Hj & Hm) & Hb).
-      apply inv_dispatch; unfold set_msgs; cbn [d_out d_st d_msgs d_started d_wbuf d_flushed]; auto.
+      apply inv_pop_dispatch; auto.
     - destruct HI as [s HI]. apply IH.
       assert (H1 : InvS n s (set_msgs d rest)).
       { destruct HI as (Hsc & Hst & Hso & Hh & Hw & Hlon). unfold st_ok in Hst. rewrite Est, Em in Hst.
@@ -283,7 +294,7 @@ Section Proofs.
   Proof.
     induction fuel as [|f IH]; intros d; [reflexivity|]. cbn [RespSeq.settle].
     destruct (d_st d); try reflexivity. destruct (d_msgs d) as [|[j|e] rest]; try reflexivity.
-    - rewrite dispatch_fail. reflexivity.
+    - unfold pop_dispatch. rewrite dispatch_fail. reflexivity.
     - rewrite IH. destruct (send_err_fields (set_msgs d rest) (mkResp e None false [])) as (_ & _ & H). exact H.
   Qed.
 
@@ -296,7 +307,7 @@ Section Proofs.
     destruct (d_st d) eqn:Est; try (unfold quiescent; rewrite Est; discriminate).
     destruct (d_msgs d) as [|[j|e] rest] eqn:Em.
     - unfold quiescent. intros _. exact Em.
-    - unfold quiescent. intro H. exfalso. eapply dispatch_not_none. exact H.
+    - unfold quiescent, pop_dispatch. intro H. exfalso. eapply dispatch_not_none. exact H.
     - apply IH. destruct (send_err_fields (set_msgs d rest) (mkResp e None false [])) as (_ & -> & _).
       cbn [set_msgs d_msgs]. cbn [length] in Hf. lia.
   Qed.
@@ -310,7 +321,7 @@ Section Proofs.
       destruct (d_msgs d) as [|[j|e] rest] eqn:Em; [exact HI| |].
       + apply IH. destruct HI as [s (Hsc & Hst & Hso & Hh & Hw & Hlon)]. exists s.
         unfold st_ok in Hst. rewrite Est, Em in Hst. destruct Hst as (Hc & (Hj & Hm) & Hb).
-        apply inv_dispatch; unfold set_msgs; cbn [d_out d_st d_msgs d_started d_wbuf d_flushed]; auto.
+        apply inv_pop_dispatch; auto.
       + apply IH. apply (settle_inv 1). exact HI.
     - (* ExpectCall: ready *)
       apply IH. destruct HI as [s (Hsc & Hst & Hso & Hh & Hw & Hlon)].
@@ -393,15 +404,15 @@ Section Proofs.
         exists s. destruct Hst as (Hc & Hm & Hb).
         apply inv_dispatch; unfold d1, set_codec; cbn [d_out d_st d_msgs d_started d_wbuf d_flushed]; auto;
           try lia; try (rewrite Hq; exact I).
-      + split; [|unfold quiescent, set_msgs; cbn [d_st]; change (d_st d1) with (d_st d); rewrite Est; discriminate].
+      + split; [|unfold quiescent, set_msgs, set_codec; cbn [d_st]; change (d_st d1) with (d_st d); rewrite Est; discriminate].
         exists s. destruct Hst as (Hc & Hj & Hm & Hb).
         unfold InvS, set_msgs, d1, set_codec, st_ok. cbn [d_out d_st d_msgs d_started d_wbuf d_flushed].
         rewrite Est. repeat split; auto; try lia. apply msgs_ok_snoc_item; [lia|exact Hm].
-      + split; [|unfold quiescent, set_msgs; cbn [d_st]; change (d_st d1) with (d_st d); rewrite Est; discriminate].
+      + split; [|unfold quiescent, set_msgs, set_codec; cbn [d_st]; change (d_st d1) with (d_st d); rewrite Est; discriminate].
         exists s. destruct Hst as (Hc & Hj & Hm & Hb & Hin).
         unfold InvS, set_msgs, d1, set_codec, st_ok. cbn [d_out d_st d_msgs d_started d_wbuf d_flushed].
         rewrite Est. repeat split; auto; try lia. apply msgs_ok_snoc_item; [lia|exact Hm].
-      + split; [|unfold quiescent, set_msgs; cbn [d_st]; change (d_st d1) with (d_st d); rewrite Est; discriminate].
+      + split; [|unfold quiescent, set_msgs, set_codec; cbn [d_st]; change (d_st d1) with (d_st d); rewrite Est; discriminate].
         exists s. destruct Hst as (Hc & Hlo & Hj & Hm & Hb & Hin).
         unfold InvS, set_msgs, d1, set_codec, st_ok. cbn [d_out d_st d_msgs d_started d_wbuf d_flushed].
         rewrite Est. repeat split; auto; try lia. apply msgs_ok_snoc_item; [lia|exact Hm].
@@ -476,9 +487,10 @@ Section Proofs.
 End Proofs.
 
 (* ================================================================ framing from the own context *)
-(* Outside the F12 class: if no request is decoded while an earlier response head is still to be
-   encoded (arrivals only when nothing is queued and the dispatcher is idle or already streaming
-   a body), every response head is the one determined by its own request and response. *)
+(* After the F12 repair (the dispatcher restores the context of the response in flight after
+   decoding a request that is only queued, and re-derives a queued request's context when it is
+   dispatched): for every schedule, every response head is the one determined by its own request
+   and response. *)
 Section OwnContext.
   Variable reqs : list reqctx.
   Variable hs : list hscript.
@@ -542,15 +554,24 @@ Section OwnContext.
   Lemma item_base c r sz : base_ok c -> base_ok (fst (codec_encode_item c r sz)).
   Proof. intros [A B]. unfold codec_encode_item, msg_encode, base_ok. cbn [fst c_ka_enabled c_stream]. auto. Qed.
 
-  Definition q_ok (d : dstate) : Prop :=
-    d_msgs d = [] \/ exists k, d_msgs d = [MItem k] /\ ctx_eq (d_codec d) (req_of reqs k).
+  Lemma ctx_eq_request_context c j :
+    base_ok c -> ctx_eq (set_request_context c (request_context c (req_of reqs j))) (req_of reqs j).
+  Proof.
+    intros [H1 H2]. unfold ctx_eq, set_request_context, request_context, codec_decode, codec_new.
+    cbn [c_ka_enabled c_stream c_head c_ver c_conn fst snd]. rewrite H1. repeat split; auto.
+  Qed.
 
+  Lemma restore_same_ctx c rq : same_ctx c (set_request_context (codec_decode c rq) (current_context c)) \/ True.
+  Proof. right. exact I. Qed.
+
+  (* every head carries the context of its own request; while request j is in ExpectCall /
+     ServiceCall the codec holds request j's context, whatever has been decoded meanwhile *)
   Definition J (d : dstate) : Prop :=
     (forall j h, In (UHead (Some j) h) (d_out d) -> h = own_head_of j) /\
     base_ok (d_codec d) /\
     match d_st d with
-    | SNone | SSend _ _ => q_ok d
-    | SExpect j | SService j => d_msgs d = [] /\ ctx_eq (d_codec d) (req_of reqs j)
+    | SNone | SSend _ _ => True
+    | SExpect j | SService j => ctx_eq (d_codec d) (req_of reqs j)
     end.
 
   Notation tick := (tick reqs hs wbs).
@@ -560,35 +581,58 @@ Section OwnContext.
 
   Lemma J_dispatch d k :
     (forall j h, In (UHead (Some j) h) (d_out d) -> h = own_head_of j) ->
-    base_ok (d_codec d) -> d_msgs d = [] -> ctx_eq (d_codec d) (req_of reqs k) ->
+    base_ok (d_codec d) -> ctx_eq (d_codec d) (req_of reqs k) ->
     J (dispatch d k).
   Proof.
-    intros Ha Hb Hm Hc. unfold RespSeq.dispatch. destruct (req_expects _);
+    intros Ha Hb Hc. unfold RespSeq.dispatch. destruct (req_expects _);
       unfold J, set_st, call_service; cbn [d_out d_codec d_st d_msgs]; auto.
+  Qed.
+
+  Lemma J_pop_dispatch d rest k :
+    (forall j h, In (UHead (Some j) h) (d_out d) -> h = own_head_of j) ->
+    base_ok (d_codec d) -> J (pop_dispatch reqs hs d rest k).
+  Proof.
+    intros Ha Hb. unfold pop_dispatch. apply J_dispatch; unfold set_codec, set_msgs; cbn [d_out d_codec].
+    - exact Ha.
+    - destruct Hb as [B1 B2]. split; assumption.
+    - apply ctx_eq_request_context. exact Hb.
+  Qed.
+
+  Lemma J_send_err d r :
+    (forall j h, In (UHead (Some j) h) (d_out d) -> h = own_head_of j) -> base_ok (d_codec d) ->
+    J (send_response d None r (BSized 0) SNone).
+  Proof.
+    intros Ha Hb. unfold send_response.
+    pose proof (item_base (d_codec d) r (BSized 0) Hb) as Hb'.
+    destruct (codec_encode_item (d_codec d) r (BSized 0)) as [c h]. cbn [fst] in Hb'.
+    unfold J, set_st, append. cbn [d_out d_codec d_st]. split; [|split; [exact Hb'|exact I]].
+    intros k h' Hin. apply in_app_or in Hin as [Hin|[Hin|[]]]; [auto|discriminate].
   Qed.
 
   Lemma J_settle fuel : forall d, J d -> J (settle fuel d).
   Proof.
     induction fuel as [|f IH]; intros d HJ; [exact HJ|]. cbn [RespSeq.settle].
     destruct (d_st d) eqn:Est; try exact HJ.
-    destruct HJ as (Ha & Hb & Hq). rewrite Est in Hq.
-    destruct Hq as [Hq|(k & Hq & Hc)]; rewrite Hq; [unfold J; rewrite Est; split; [exact Ha|split; [exact Hb|left; exact Hq]]|].
-    apply J_dispatch; unfold set_msgs; cbn [d_out d_codec d_msgs]; auto.
+    destruct HJ as (Ha & Hb & _).
+    destruct (d_msgs d) as [|[k|e] rest]; [unfold J; rewrite Est; auto| |].
+    - apply J_pop_dispatch; assumption.
+    - apply IH. apply J_send_err; unfold set_msgs; cbn [d_out d_codec]; assumption.
   Qed.
 
   Lemma J_tick fuel : forall d, J d -> J (tick fuel d).
   Proof.
     induction fuel as [|f IH]; intros d HJ; [exact HJ|]. cbn [RespSeq.tick].
     destruct (d_st d) as [|j|j|j e] eqn:Est.
-    - destruct HJ as (Ha & Hb & Hq). rewrite Est in Hq.
-      destruct Hq as [Hq|(k & Hq & Hc)]; rewrite Hq; [unfold J; rewrite Est; split; [exact Ha|split; [exact Hb|left; exact Hq]]|].
-      apply IH. apply J_dispatch; unfold set_msgs; cbn [d_out d_codec d_msgs]; auto.
-    - apply IH. destruct HJ as (Ha & Hb & Hq). rewrite Est in Hq. destruct Hq as [Hm Hc].
+    - destruct HJ as (Ha & Hb & _).
+      destruct (d_msgs d) as [|[k|e] rest]; [unfold J; rewrite Est; auto| |].
+      + apply IH. apply J_pop_dispatch; assumption.
+      + apply IH. apply (J_settle 1). unfold J. rewrite Est. auto.
+    - apply IH. destruct HJ as (Ha & Hb & Hc). rewrite Est in Hc.
       unfold J, call_service, append. cbn [d_out d_codec d_st d_msgs]. split; [|auto].
       intros k h Hin. apply in_app_or in Hin as [Hin|[Hin|[]]]; [auto|discriminate].
     - destruct (0 <? d_pend d).
       + destruct HJ as (Ha & Hb & Hq). unfold J, set_pend. cbn [d_out d_codec d_st d_msgs]. rewrite Est in *. auto.
-      + destruct HJ as (Ha & Hb & Hq). rewrite Est in Hq. destruct Hq as [Hm Hc].
+      + destruct HJ as (Ha & Hb & Hc). rewrite Est in Hc.
         unfold send_response.
         pose proof (ctx_eq_head (d_codec d) j (h_resp (h_of hs j)) (h_size (h_of hs j)) Hc) as Hh.
         pose proof (item_base (d_codec d) (h_resp (h_of hs j)) (h_size (h_of hs j)) Hb) as Hb'.
@@ -599,10 +643,10 @@ Section OwnContext.
         { intros st' Hst'. unfold J, set_st, append. cbn [d_out d_codec d_st d_msgs]. split; [|split; [exact Hb'|]].
           - intros k h' Hin. apply in_app_or in Hin as [Hin|[Hin|[]]]; [auto|].
             injection Hin as E1 E2. rewrite <- E1, <- E2. exact Hh.
-          - destruct st'; try contradiction; left; exact Hm. }
+          - destruct st'; try contradiction; exact I. }
         destruct (h_size (h_of hs j)) as [|[|p]|]; apply HJ'; exact I.
     - destruct (d_wbuf d <? wbs); [|exact HJ].
-      destruct HJ as (Ha & Hb & Hq). rewrite Est in Hq.
+      destruct HJ as (Ha & Hb & _).
       assert (Hkeep : forall c' u st',
                  same_ctx (d_codec d) c' -> (forall k h, u <> UHead (Some k) h) ->
                  match st' with SNone | SSend _ _ => True | _ => False end ->
@@ -611,17 +655,14 @@ Section OwnContext.
         split; [|split].
         - intros k h' Hin. apply in_app_or in Hin as [Hin|[Hin|[]]]; [auto|]. exfalso. eapply Hu. exact Hin.
         - destruct Hs as (A & B & _). destruct Hb as [B1 B2]. unfold base_ok. rewrite A, B. auto.
-        - assert (Hq' : d_msgs d = [] \/ exists k, d_msgs d = [MItem k] /\ ctx_eq c' (req_of reqs k)).
-          { destruct Hq as [Hq|(k & Hq & Hc)]; [left; exact Hq|right; exists k; split; [exact Hq|]].
-            eapply same_ctx_eq; eauto. }
-          destruct st'; try contradiction; exact Hq'. }
+        - destruct st'; try contradiction; exact I. }
       destruct (body_poll (h_kind (h_of hs j)) (d_body d)) as [[|b| |] b'].
       + unfold J, set_body. cbn [d_out d_codec d_st d_msgs]. rewrite Est. auto.
       + pose proof (chunk_same_ctx (d_codec d) b) as Hs.
         destruct (codec_encode_chunk (d_codec d) b) as [c out]. cbn [fst] in Hs.
         specialize (Hkeep c (UData j out) (SSend j e) Hs).
         unfold set_st in Hkeep. unfold J, set_body, append in *. cbn [d_out d_codec d_st d_msgs] in *.
-        rewrite Est in Hkeep. rewrite Est.
+        rewrite Est.
         apply (Hkeep (fun _ _ H => ltac:(discriminate H)) I b').
       + destruct (codec_encode_eof (d_codec d)) as [[c out]|] eqn:Ee.
         * apply (Hkeep c (UData j out) SNone (eof_same_ctx _ _ _ Ee)); [intros; discriminate|exact I].
@@ -629,56 +670,56 @@ Section OwnContext.
       + unfold J, set_fail. cbn [d_out d_codec d_st d_msgs]. rewrite Est. auto.
   Qed.
 
-  (* the no-window condition along a run *)
-  Fixpoint nw (d : dstate) (es : list event) : Prop :=
-    match es with
-    | [] => True
-    | e :: r =>
-        match e with
-        | EvArrive _ => d_msgs d = [] /\ (d_st d = SNone \/ exists j e', d_st d = SSend j e')
-        | EvBad => False
-        | _ => True
-        end /\ nw (step d e) r
-    end.
-
-  Lemma J_step d e :
-    J d ->
-    match e with
-    | EvArrive _ => d_msgs d = [] /\ (d_st d = SNone \/ exists j e', d_st d = SSend j e')
-    | EvBad => False
-    | _ => True
-    end -> J (step d e).
+  Lemma J_step d e : J d -> J (step d e).
   Proof.
-    intros HJ He. unfold RespSeq.step. destruct (d_fail d); [exact HJ|].
-    destruct e as [j| | |k]; [| contradiction | |].
-    - destruct HJ as (Ha & [Hb1 Hb2] & Hq). destruct He as [Hm Hst].
+    intros HJ. unfold RespSeq.step. destruct (d_fail d); [exact HJ|].
+    destruct e as [j| | |k].
+    - destruct HJ as (Ha & [Hb1 Hb2] & Hq).
       set (d1 := set_codec d (codec_decode (d_codec d) (req_of reqs (N.to_nat j)))).
       assert (Hc : ctx_eq (d_codec d1) (req_of reqs (N.to_nat j))) by (apply ctx_eq_decode; assumption).
       assert (Hb' : base_ok (d_codec d1)) by (destruct Hc as (A & B & _); split; assumption).
       change (d_st d1) with (d_st d).
-      destruct Hst as [Hst|(j' & e' & Hst)]; rewrite Hst.
+      destruct (d_st d) as [|k|k|k e] eqn:Est.
       + apply J_dispatch; auto.
-      + unfold J, set_msgs. cbn [d_out d_codec d_st d_msgs]. change (d_st d1) with (d_st d). rewrite Hst.
-        split; [exact Ha|]. split; [exact Hb'|]. right. exists (N.to_nat j).
-        change (d_msgs d1) with (d_msgs d). rewrite Hm. split; [reflexivity|exact Hc].
+      + (* queued: the context of the response in flight is restored *)
+        unfold J, set_msgs, set_codec. cbn [d_out d_codec d_st d_msgs]. change (d_st d1) with (d_st d). rewrite Est.
+        split; [exact Ha|]. unfold d1, set_codec, set_request_context, current_context, codec_decode.
+        cbn [d_codec c_ka_enabled c_stream c_head c_ver c_conn c_te fst snd].
+        destruct Hq as (Q1 & Q2 & Q3 & Q4 & Q5).
+        split; [split; [exact Hb1|rewrite Hb2, (req_no_stream (N.to_nat j)); reflexivity]|].
+        unfold ctx_eq. cbn [c_ka_enabled c_stream c_head c_ver c_conn].
+        rewrite Hb2, (req_no_stream (N.to_nat j)). repeat split; auto.
+      + unfold J, set_msgs, set_codec. cbn [d_out d_codec d_st d_msgs]. change (d_st d1) with (d_st d). rewrite Est.
+        split; [exact Ha|]. unfold d1, set_codec, set_request_context, current_context, codec_decode.
+        cbn [d_codec c_ka_enabled c_stream c_head c_ver c_conn c_te fst snd].
+        destruct Hq as (Q1 & Q2 & Q3 & Q4 & Q5).
+        split; [split; [exact Hb1|rewrite Hb2, (req_no_stream (N.to_nat j)); reflexivity]|].
+        unfold ctx_eq. cbn [c_ka_enabled c_stream c_head c_ver c_conn].
+        rewrite Hb2, (req_no_stream (N.to_nat j)). repeat split; auto.
+      + unfold J, set_msgs, set_codec. cbn [d_out d_codec d_st d_msgs]. change (d_st d1) with (d_st d). rewrite Est.
+        split; [exact Ha|]. unfold d1, set_codec, set_request_context, current_context, codec_decode.
+        cbn [d_codec c_ka_enabled c_stream c_head c_ver c_conn c_te fst snd].
+        split; [split; [exact Hb1|rewrite Hb2, (req_no_stream (N.to_nat j)); reflexivity]|exact I].
+    - apply J_settle. destruct HJ as (Ha & Hb & Hq). unfold J, set_msgs. cbn [d_out d_codec d_st d_msgs]. auto.
     - apply J_settle. apply J_tick. exact HJ.
     - destruct HJ as (Ha & Hb & Hq). unfold J, flush. cbn [d_out d_codec d_st d_msgs]. auto.
   Qed.
 
-  Lemma J_run es : forall d, J d -> nw d es -> J (run reqs hs wbs d es).
+  Lemma J_run es : forall d, J d -> J (run reqs hs wbs d es).
   Proof.
-    induction es as [|e es IH]; intros d HJ Hn; [exact HJ|].
+    induction es as [|e es IH]; intros d HJ; [exact HJ|].
     unfold run. cbn [fold_left]. fold (run reqs hs wbs (step d e) es).
-    cbn [nw] in Hn. destruct Hn as [He Hn]. apply IH; [apply J_step; assumption|exact Hn].
+    apply IH. apply J_step. exact HJ.
   Qed.
 
+  (* For EVERY schedule: each response head on the wire is the one determined by its own
+     request and its own response (and the connection-wide keep-alive setting). *)
   Theorem heads_from_own_context es :
-    nw (d_init ka) es ->
     forall j h, In (UHead (Some j) h) (d_out (run reqs hs wbs (d_init ka) es)) -> h = own_head_of j.
   Proof.
-    intros Hn. apply (J_run es (d_init ka)); [|exact Hn].
+    apply (J_run es (d_init ka)).
     unfold J, d_init. cbn [d_out d_codec d_st d_msgs]. split; [intros j h []|].
-    split; [split; reflexivity|left; reflexivity].
+    split; [split; reflexivity|exact I].
   Qed.
 End OwnContext.
 
